@@ -360,3 +360,472 @@ pub fn run_c13(ctx: &mut Ctx) {
         ctx.judge_bytes(b, &mut |c| c13_check(c));
     });
 }
+
+// ------------------------------------------------------------------ C04 (parsed values)
+
+/// Facts every serialised identifier must satisfy, given the value observed through the getters.
+pub fn c04_string_facts(what: &str, s: &str, observed_canon: &str, facts: &[&'static str]) -> Vec<Fail> {
+    let mut out = vec![];
+    if !s.bytes().all(|c| c.is_ascii_alphanumeric() || c == b'-') {
+        out.push(fail("alphabet", format!("{} to_string() = {:?} contains bytes outside [A-Za-z0-9-]", what, s)));
+    }
+    if s.split('-').any(|t| t.is_empty()) {
+        out.push(fail("empty-subtag", format!("{} to_string() = {:?} has an empty subtag", what, s)));
+    }
+    if s != observed_canon {
+        out.push(fail("canonical-form", format!("{} to_string() = {:?}, independent canonicaliser over the getters gives {:?}", what, s, observed_canon)));
+    }
+    for f in facts {
+        out.push(fail("sorted-unique", format!("{}: {}", what, f)));
+    }
+    // the output must be a fixed point of the independent recogniser + canonicaliser
+    match refspec::classify_locale_full(s.as_bytes()) {
+        (Zone::MustAccept(v), _) => {
+            if v.canon() != s {
+                out.push(fail("not-canonical", format!("{} to_string() = {:?} re-canonicalises to {:?} (case / order / 'true' / duplicates)", what, s, v.canon())));
+            }
+        }
+        (Zone::Either(v, _), reasons) if reasons.iter().all(|r| *r == refspec::R_TFIELD_NOVALUE) => {
+            if v.canon() != s {
+                out.push(fail("not-canonical", format!("{} to_string() = {:?} re-canonicalises to {:?}", what, s, v.canon())));
+            }
+        }
+        (z, _) => out.push(fail("not-well-formed", format!("{} to_string() = {:?} is not a well-formed identifier: {} ({})", what, s, z.name(), z.reason()))),
+    }
+    out
+}
+
+pub fn c04_check_locale_value(what: &str, l: &Locale) -> Vec<Fail> {
+    let s = match guard(|| l.to_string()) {
+        Ok(s) => s,
+        Err(p) => return vec![fail("panic", format!("to_string panicked: {}", p))],
+    };
+    let o = obs_loc(l);
+    c04_string_facts(what, &s, &o.canon(), &order_facts(l))
+}
+
+pub fn c04_check_langid_value(what: &str, li: &LanguageIdentifier) -> Vec<Fail> {
+    let s = match guard(|| li.to_string()) {
+        Ok(s) => s,
+        Err(p) => return vec![fail("panic", format!("to_string panicked: {}", p))],
+    };
+    let o = obs_li(li);
+    let mut facts = vec![];
+    if !crate::obs::strictly_ascending(li.variants().map(|v| v.as_str())) {
+        facts.push("variants not strictly ascending");
+    }
+    let mut out = c04_string_facts(what, &s, &o.canon(), &facts);
+    if !matches!(classify_langid(s.as_bytes()), LiVerdict::Accept(_)) {
+        out.push(fail("not-well-formed", format!("{} to_string() = {:?} is not a well-formed language identifier", what, s)));
+    }
+    out
+}
+
+pub fn c04_check(input: &[u8]) -> Vec<Fail> {
+    let mut out = vec![];
+    match guard(|| Locale::from_bytes(input)) {
+        Err(_) => {}
+        Ok(Err(_)) => {
+            if let Ok(Ok(s)) = guard(|| unic_locale_impl::canonicalize(input)) {
+                out.push(fail("canonicalize-differs", format!("Locale::from_bytes fails but canonicalize returns {:?}", s)));
+            }
+        }
+        Ok(Ok(l)) => {
+            out.extend(c04_check_locale_value("Locale", &l));
+            let s = l.to_string();
+            match guard(|| unic_locale_impl::canonicalize(input)) {
+                Ok(Ok(c)) => {
+                    if c != s {
+                        out.push(fail("canonicalize-differs", format!("canonicalize = {:?}, parse().to_string() = {:?}", c, s)));
+                    }
+                    if c.len() > input.len() {
+                        out.push(fail("canonicalize-longer", format!("canonicalize output {:?} ({} bytes) is longer than the input ({} bytes)", c, c.len(), input.len())));
+                    }
+                }
+                Ok(Err(e)) => out.push(fail("canonicalize-differs", format!("parse succeeds but canonicalize fails: {:?}", e))),
+                Err(p) => out.push(fail("panic", p)),
+            }
+        }
+    }
+    match guard(|| LanguageIdentifier::from_bytes(input)) {
+        Err(_) => {}
+        Ok(Err(_)) => {
+            if let Ok(Ok(s)) = guard(|| unic_langid_impl::canonicalize(input)) {
+                out.push(fail("canonicalize-differs", format!("LanguageIdentifier::from_bytes fails but canonicalize returns {:?}", s)));
+            }
+        }
+        Ok(Ok(li)) => {
+            out.extend(c04_check_langid_value("LanguageIdentifier", &li));
+            let s = li.to_string();
+            match guard(|| unic_langid_impl::canonicalize(input)) {
+                Ok(Ok(c)) => {
+                    if c != s {
+                        out.push(fail("canonicalize-differs", format!("langid canonicalize = {:?}, parse().to_string() = {:?}", c, s)));
+                    }
+                    if c.len() > input.len() {
+                        out.push(fail("canonicalize-longer", format!("{:?} longer than input", c)));
+                    }
+                }
+                Ok(Err(e)) => out.push(fail("canonicalize-differs", format!("parse succeeds but canonicalize fails: {:?}", e))),
+                Err(p) => out.push(fail("panic", p)),
+            }
+        }
+    }
+    out
+}
+
+// ------------------------------------------------------------------ C05 (parsed values)
+
+pub fn c05_check_locale_value(what: &str, l: &Locale) -> Vec<Fail> {
+    let mut out = vec![];
+    let s = l.to_string();
+    match guard(|| s.parse::<Locale>()) {
+        Err(p) => out.push(fail("panic", p)),
+        Ok(Err(e)) => out.push(fail("locale-reparse-rejected", format!("{}: to_string() = {:?} does not parse back: {:?}", what, s, e))),
+        Ok(Ok(l2)) => {
+            if l2 != *l {
+                out.push(fail("locale-reparse-differs", format!("{}: {:?} parses back to a different value {:?} vs {:?}", what, s, l2, l)));
+            } else if l2.to_string() != s {
+                out.push(fail("locale-reparse-differs", format!("{}: {:?} re-serialises as {:?}", what, s, l2.to_string())));
+            }
+        }
+    }
+    let es = l.extensions.to_string();
+    match guard(|| es.parse::<ExtensionsMap>()) {
+        Err(p) => out.push(fail("panic", p)),
+        Ok(Err(e)) => out.push(fail("extensions-reparse-rejected", format!("{}: extensions.to_string() = {:?} does not parse back: {:?}", what, es, e))),
+        Ok(Ok(e2)) => {
+            if e2 != l.extensions {
+                out.push(fail("extensions-reparse-differs", format!("{}: {:?} parses back to {:?}", what, es, e2.to_string())));
+            }
+        }
+    }
+    out.extend(c05_check_langid_value(what, &l.id));
+    if let Some(t) = l.extensions.transform.tlang() {
+        out.extend(c05_check_langid_value("tlang", t));
+    }
+    out
+}
+
+pub fn c05_check_langid_value(what: &str, li: &LanguageIdentifier) -> Vec<Fail> {
+    use unic_langid_impl::subtags::{Language, Region, Script, Variant};
+    let mut out = vec![];
+    let s = li.to_string();
+    match guard(|| s.parse::<LanguageIdentifier>()) {
+        Err(p) => out.push(fail("panic", p)),
+        Ok(Err(e)) => out.push(fail("langid-reparse-rejected", format!("{}: to_string() = {:?} does not parse back: {:?}", what, s, e))),
+        Ok(Ok(l2)) => {
+            if l2 != *li {
+                out.push(fail("langid-reparse-differs", format!("{}: {:?} parses back to {:?}", what, s, l2)));
+            }
+        }
+    }
+    if li.language.to_string().parse::<Language>() != Ok(li.language) {
+        out.push(fail("subtag-reparse", format!("language {:?}", li.language.to_string())));
+    }
+    if let Some(x) = li.script {
+        if x.to_string().parse::<Script>() != Ok(x) {
+            out.push(fail("subtag-reparse", format!("script {:?}", x.to_string())));
+        }
+    }
+    if let Some(x) = li.region {
+        if x.to_string().parse::<Region>() != Ok(x) {
+            out.push(fail("subtag-reparse", format!("region {:?}", x.to_string())));
+        }
+    }
+    for v in li.variants() {
+        if v.to_string().parse::<Variant>() != Ok(*v) {
+            out.push(fail("subtag-reparse", format!("variant {:?}", v.to_string())));
+        }
+    }
+    out
+}
+
+pub fn c05_check(input: &[u8]) -> Vec<Fail> {
+    let mut out = vec![];
+    if let Ok(Ok(l)) = guard(|| Locale::from_bytes(input)) {
+        out.extend(c05_check_locale_value("parsed Locale", &l));
+        // canonicalize idempotent
+        if let Ok(Ok(c1)) = guard(|| unic_locale_impl::canonicalize(input)) {
+            match guard(|| unic_locale_impl::canonicalize(&c1)) {
+                Ok(Ok(c2)) if c2 == c1 => {}
+                x => out.push(fail("canonicalize-not-idempotent", format!("canonicalize({:?}) = {:?}", c1, x))),
+            }
+        }
+    }
+    if let Ok(Ok(li)) = guard(|| LanguageIdentifier::from_bytes(input)) {
+        out.extend(c05_check_langid_value("parsed LanguageIdentifier", &li));
+        if let Ok(Ok(c1)) = guard(|| unic_langid_impl::canonicalize(input)) {
+            match guard(|| unic_langid_impl::canonicalize(&c1)) {
+                Ok(Ok(c2)) if c2 == c1 => {}
+                x => out.push(fail("canonicalize-not-idempotent", format!("langid canonicalize({:?}) = {:?}", c1, x))),
+            }
+        }
+    }
+    // the extension part on its own
+    if let Ok(Ok(e)) = guard(|| ExtensionsMap::from_bytes(input)) {
+        let s = e.to_string();
+        match guard(|| s.parse::<ExtensionsMap>()) {
+            Ok(Ok(e2)) if e2 == e => {}
+            x => out.push(fail("extensions-reparse-differs", format!("ExtensionsMap {:?} -> {:?}", s, x.map(|r| r.map(|m| m.to_string()))))),
+        }
+    }
+    out
+}
+
+// ------------------------------------------------------------------ C09 (metamorphic)
+
+fn cmp_pair(a: &[u8], b: &[u8], what: &str) -> Vec<Fail> {
+    let mut out = vec![];
+    let (ra, rb) = (guard(|| Locale::from_bytes(a)), guard(|| Locale::from_bytes(b)));
+    match (&ra, &rb) {
+        (Err(p), _) | (_, Err(p)) => out.push(fail(format!("{}:panic", what), p.clone())),
+        (Ok(Ok(x)), Ok(Ok(y))) => {
+            if x != y {
+                out.push(fail(format!("{}:locale-values-differ", what), format!("{:?} -> {}, {:?} -> {}", lossy(a), x, lossy(b), y)));
+            } else if x.to_string() != y.to_string() {
+                out.push(fail(format!("{}:locale-strings-differ", what), format!("{} vs {}", x, y)));
+            }
+        }
+        (Ok(Err(_)), Ok(Err(_))) => {}
+        (Ok(x), Ok(y)) => out.push(fail(
+            format!("{}:locale-one-fails", what),
+            format!("{:?} -> {:?}, {:?} -> {:?}", lossy(a), x.as_ref().map(|l| l.to_string()), lossy(b), y.as_ref().map(|l| l.to_string())),
+        )),
+    }
+    let (ra, rb) = (guard(|| LanguageIdentifier::from_bytes(a)), guard(|| LanguageIdentifier::from_bytes(b)));
+    match (&ra, &rb) {
+        (Err(p), _) | (_, Err(p)) => out.push(fail(format!("{}:panic", what), p.clone())),
+        (Ok(Ok(x)), Ok(Ok(y))) => {
+            if x != y || x.to_string() != y.to_string() {
+                out.push(fail(format!("{}:langid-values-differ", what), format!("{:?} -> {}, {:?} -> {}", lossy(a), x, lossy(b), y)));
+            }
+        }
+        (Ok(Err(_)), Ok(Err(_))) => {}
+        (Ok(x), Ok(y)) => out.push(fail(
+            format!("{}:langid-one-fails", what),
+            format!("{:?} -> {:?}, {:?} -> {:?}", lossy(a), x.as_ref().map(|l| l.to_string()), lossy(b), y.as_ref().map(|l| l.to_string())),
+        )),
+    }
+    out
+}
+
+/// Deterministic byte-level transformations applicable to ANY input (mode picks one).
+pub fn c09_mask(input: &[u8], mode: u8) -> Vec<u8> {
+    let mut v = input.to_vec();
+    for (i, b) in v.iter_mut().enumerate() {
+        match mode % 6 {
+            0 => *b = b.to_ascii_uppercase(),
+            1 => *b = b.to_ascii_lowercase(),
+            2 => {
+                if *b == b'-' {
+                    *b = b'_'
+                }
+            }
+            3 => {
+                if i % 2 == 0 {
+                    *b = b.to_ascii_uppercase()
+                } else {
+                    *b = b.to_ascii_lowercase()
+                }
+            }
+            4 => {
+                // alternate separators, flip case of every third byte
+                if *b == b'-' && i % 2 == 1 {
+                    *b = b'_'
+                } else if *b == b'_' && i % 2 == 0 {
+                    *b = b'-'
+                } else if i % 3 == 0 {
+                    *b = if b.is_ascii_uppercase() { b.to_ascii_lowercase() } else { b.to_ascii_uppercase() }
+                }
+            }
+            _ => {
+                if *b == b'_' {
+                    *b = b'-'
+                } else if b.is_ascii_alphabetic() {
+                    *b ^= 0x20
+                }
+            }
+        }
+    }
+    v
+}
+
+/// Replay/shrink form: first byte = mask mode, rest = input.
+pub fn c09_check_masks(tagged: &[u8]) -> Vec<Fail> {
+    if tagged.is_empty() {
+        return vec![];
+    }
+    let (mode, input) = (tagged[0], &tagged[1..]);
+    let b = c09_mask(input, mode);
+    if b == input {
+        return vec![];
+    }
+    cmp_pair(input, &b, "case-separator")
+}
+
+fn tok_bytes(t: &[String]) -> Vec<u8> {
+    t.join("-").into_bytes()
+}
+
+/// Structure-aware transformations of one generated locale. Returns (label, a, b) pairs.
+pub fn c09_struct_pairs(sl: &gen::SLoc, r: &mut Rng) -> Vec<(&'static str, Vec<u8>, Vec<u8>)> {
+    let mut pairs = vec![];
+    let base = sl.tokens();
+    let a = tok_bytes(&base);
+    // random case + separator masks
+    pairs.push(("case-separator", a.clone(), gen::render_random(&base, r)));
+    // variants permuted / duplicated
+    if sl.id.variants.len() >= 1 {
+        let mut s2 = sl.clone();
+        r.shuffle(&mut s2.id.variants);
+        if r.chance(1, 2) {
+            let d = r.pick(&s2.id.variants).clone();
+            let at = r.below(s2.id.variants.len() + 1);
+            s2.id.variants.insert(at, d);
+        }
+        pairs.push(("variant-order", a.clone(), tok_bytes(&s2.tokens())));
+    }
+    if let Some((attrs, kws)) = &sl.u {
+        if !attrs.is_empty() {
+            let mut s2 = sl.clone();
+            let u2 = s2.u.as_mut().unwrap();
+            r.shuffle(&mut u2.0);
+            if r.chance(1, 2) {
+                let d = r.pick(&u2.0).clone();
+                let at = r.below(u2.0.len() + 1);
+                u2.0.insert(at, d);
+            }
+            pairs.push(("attribute-order", a.clone(), tok_bytes(&s2.tokens())));
+        }
+        if kws.len() >= 2 {
+            let mut s2 = sl.clone();
+            r.shuffle(&mut s2.u.as_mut().unwrap().1);
+            pairs.push(("keyword-order", a.clone(), tok_bytes(&s2.tokens())));
+        }
+    }
+    if let Some((tl, fs)) = &sl.t {
+        if fs.len() >= 2 {
+            let mut s2 = sl.clone();
+            r.shuffle(&mut s2.t.as_mut().unwrap().1);
+            pairs.push(("tfield-order", a.clone(), tok_bytes(&s2.tokens())));
+        }
+        if let Some(tl) = tl {
+            if !tl.variants.is_empty() {
+                let mut s2 = sl.clone();
+                let t2 = s2.t.as_mut().unwrap().0.as_mut().unwrap();
+                r.shuffle(&mut t2.variants);
+                let d = r.pick(&t2.variants).clone();
+                t2.variants.push(d);
+                pairs.push(("tlang-variant-order", a.clone(), tok_bytes(&s2.tokens())));
+            }
+        }
+    }
+    if sl.u.is_some() && sl.t.is_some() {
+        let mut s2 = sl.clone();
+        s2.u_first = !s2.u_first;
+        pairs.push(("u-t-order", a.clone(), tok_bytes(&s2.tokens())));
+    }
+    // the "both fail" side: inject the same fault outside the permuted group into both members
+    let n = pairs.len();
+    for i in 0..n {
+        if r.chance(1, 3) {
+            let (label, x, y) = pairs[i].clone();
+            let fault = r.below(3);
+            let inj = |v: &Vec<u8>| -> Vec<u8> {
+                match fault {
+                    0 => {
+                        let mut o = b"e1-".to_vec();
+                        o.extend_from_slice(v);
+                        o
+                    }
+                    1 => {
+                        let mut o = v.clone();
+                        o.extend_from_slice(b"-toolongsubtag");
+                        o
+                    }
+                    _ => {
+                        let mut o = b"toolonglanguage-".to_vec();
+                        o.extend_from_slice(v);
+                        o
+                    }
+                }
+            };
+            let lab: &'static str = match label {
+                "case-separator" => "case-separator+fault",
+                "variant-order" => "variant-order+fault",
+                "attribute-order" => "attribute-order+fault",
+                "keyword-order" => "keyword-order+fault",
+                "tfield-order" => "tfield-order+fault",
+                "tlang-variant-order" => "tlang-variant-order+fault",
+                _ => "u-t-order+fault",
+            };
+            pairs.push((lab, inj(&x), inj(&y)));
+        }
+    }
+    pairs
+}
+
+/// Replay form for structural pairs: JSON {"a": hex, "b": hex, "label": ...}
+pub fn c09_check_pair(label: &str, a: &[u8], b: &[u8]) -> Vec<Fail> {
+    cmp_pair(a, b, label)
+}
+
+pub fn run_c09(ctx: &mut Ctx) {
+    let quick = ctx.quick();
+    let cfg = StreamCfg::standard(quick).scaled(if quick { 4 } else { 5 }, if quick { 5 } else { 6 }, if quick { 4 } else { 5 });
+    ctx.extra.insert("workload".into(), json!(format!("every input of [{}] x 2 of 6 byte-level case/separator masks (mask chosen by input hash; all 6 on G-langid and G-corpus); + random well-formed locales x structure-aware transformations (variant/attribute/keyword/tfield order and repetition, u/t block swap), one third of them with an identical fault injected into both members", cfg.describe())));
+    let mut tagged: Vec<u8> = Vec::with_capacity(128);
+    byte_stream(ctx, &cfg, &mut |ctx, b, src| {
+        ctx.count(src.name());
+        let h = mon::SigH::new(9).b(b).fin();
+        let modes: &[u8] = if matches!(src, crate::stream::Src::LangidAlpha | crate::stream::Src::Corpus) { &[0, 1, 2, 3, 4, 5] } else { &[0, 0] };
+        for (j, m) in modes.iter().enumerate() {
+            let mode = if modes.len() == 2 { ((h >> (8 * j)) % 6) as u8 } else { *m };
+            tagged.clear();
+            tagged.push(mode);
+            tagged.extend_from_slice(b);
+            let t = c09_mask(b, mode);
+            if t == b {
+                ctx.count("mask-is-identity");
+                continue;
+            }
+            ctx.evals += 1;
+            let ok = Locale::from_bytes(b).is_ok();
+            ctx.count(if ok { "pair:both-expected-ok" } else { "pair:both-expected-err" });
+            if refspec::n_subtags(b) >= 2 {
+                ctx.sig(refspec::class_seq_hash(9, b, (mode as u64) << 1 | ok as u64));
+            }
+            let tg = tagged.clone();
+            ctx.judge_bytes(&tg, &mut |c| c09_check_masks(c));
+        }
+    });
+    let n = if quick { 300_000u64 } else { 10_000_000 } / ctx.nshards as u64;
+    let mut r = Rng::new(mix(&[ctx.seed, ctx.shard as u64, 0xC09]));
+    for _ in 0..n {
+        ctx.rng_state = Some(r.state());
+        let sl = gen::gen_sloc(&mut r, true, true);
+        for (label, a, b) in c09_struct_pairs(&sl, &mut r) {
+            mon::begin_case(&a);
+            ctx.evals += 1;
+            ctx.count(label);
+            let ok = Locale::from_bytes(&a).is_ok();
+            ctx.count(if ok { "pair:both-expected-ok" } else { "pair:both-expected-err" });
+            ctx.sig(refspec::class_seq_hash(mon::SigH::new(0).b(label.as_bytes()).fin(), &a, ok as u64));
+            if ctx.wants_sample(label) {
+                ctx.sample(label, || json!({"transformation": label, "a": lossy(&a), "b": lossy(&b), "both_parse": ok}));
+            }
+            let fails = c09_check_pair(label, &a, &b);
+            for f in fails {
+                ctx.viol_total += 1;
+                ctx.count_dyn(&format!("violation:{}", f.clause));
+                if ctx.may_minimise(&f.clause) {
+                    ctx.add_violation(&f.clause, json!({"label": label, "a": mon::bytes_json(&a), "b": mon::bytes_json(&b)}), json!(null), f.detail);
+                }
+            }
+        }
+    }
+    ctx.rng_state = None;
+    mon::idle();
+    ctx.extra.insert("floors".into(), json!({"variant-order": 1000, "attribute-order": 1000, "keyword-order": 1000, "tfield-order": 500, "u-t-order": 1000, "pair:both-expected-ok": 10000, "pair:both-expected-err": 10000}));
+}
